@@ -423,12 +423,12 @@ def run(ctx):
                 if rng.random() < 0.7:
                     o["sp_permit_cpp11_shift"] = "true"
                 jobs.append(pipeline.Job("remove-all", sc.cfg(None, o), p, lang, {"opts": o, "text": txt, "kind": "remove-all"}))
-        # the code-modifying options are few: every mod_ option at every enumerated/boundary value on one C++ and one C/OC program of every run
-        if not thorough:
+        # the code-modifying options are few: every mod_ option at every enumerated/boundary value on every C++ program and some C/OC programs of every run
+        if True:
             cpp = [pr for pr in progs if pr[1] == "CPP"]
             cs = [pr for pr in progs if pr[1] in ("C", "OC")]
             for n, (k, v) in enumerate(sorted(x for x in singles if x[0].startswith("mod_"))):
-                for pool, off in [(cpp, x) for x in range(len(cpp))] + [(cs, 0), (cs, 1)]:
+                for pool, off in [(cpp, x) for x in range(len(cpp))] + [(cs, x) for x in range(6 if thorough else 2)]:
                     if len(pool) > off:
                         p, lang, txt = pool[(n + off) % len(pool)]
                         jobs.append(pipeline.Job("single", sc.cfg(None, {k: v}), p, lang, {"opts": {k: v}, "text": txt, "kind": "mod-single"}))
